@@ -444,7 +444,7 @@ func TestC14(t *testing.T) {
 	// alpha must come out bit-identical, transparent pixels as zero colour with alpha 0, channels <= alpha
 	for si := range sp.Spaces {
 		s := &sp.Spaces[si]
-		for _, srcKind := range []string{"RGBA64", "NRGBA64"} {
+		for _, srcKind := range []string{"RGBA64", "NRGBA64", "Paletted256", "Paletted255"} {
 			for _, op := range []string{"Linearise", "Encode"} {
 				for _, layout := range []string{"plain", "source is a sub-image", "destination is a sub-image", "alpha high byte varies along the row", "rows with negative coordinates", "destination holds an opaque image", "fresh destination"} {
 					var src image.Image
@@ -469,6 +469,32 @@ func TestC14(t *testing.T) {
 								m.SetRGBA64(x-5, y+sy, color.RGBA64{R: a / 2, G: a, B: a / 7, A: a})
 							}
 						}
+						src = m.SubImage(image.Rect(-5, sy, 251, sy+256))
+					} else if strings.HasPrefix(srcKind, "Paletted") {
+						// an indexed picture whose palette entries carry their own alphas (GIF/PNG with tRNS): the full 256
+						// entries and one fewer; the alpha of a pixel is the alpha of its entry
+						n := 256
+						if srcKind == "Paletted255" {
+							n = 255
+						}
+						pal := make(color.Palette, n)
+						for i := range pal {
+							a := uint16(i*257) ^ uint16(len(layout)*977+si*31)
+							if i == 0 {
+								a = 0
+							}
+							if i == n-1 {
+								a = 0xFFFF
+							}
+							pal[i] = color.NRGBA64{R: uint16(i * 131), G: 0xFFFF, B: uint16(i), A: a}
+						}
+						m := image.NewPaletted(srcParent, pal)
+						for y := 0; y < 256; y++ {
+							for x := 0; x < 256; x++ {
+								m.SetColorIndex(x-5, y+sy, uint8((x*7+y*3)%n))
+							}
+						}
+						alphaAt = func(x, y int) uint16 { return pal[(x*7+y*3)%n].(color.NRGBA64).A }
 						src = m.SubImage(image.Rect(-5, sy, 251, sy+256))
 					} else {
 						m := image.NewNRGBA64(srcParent)
